@@ -36,7 +36,17 @@ class C15(C14):
                      ["recall"], ["recall"]] + [o for o in case["ops"] if o[0] != "bulk_post"][:6]
       case["spec"] = dict(case["spec"], acts={})
       return case
-    return st.one_of(base, base, base, base.map(at_capacity))
+    def deep_defer(case):
+      # hundreds of events deferred at once, up to the defer queue's own capacity: the oldest is
+      # still the first to come back
+      case = dict(case, budget=30)
+      sig = case["spec"]["sigs"][0]
+      n = 498 + (len(case["ops"]) % 3)           # 498, 499 or 500 outstanding deferrals
+      case["ops"] = [["bulk_defer", sig, n], ["recall"], ["recall"], ["next_rtc"], ["recall"]] + \
+          [o for o in case["ops"] if o[0] not in ("bulk_post", "defer", "defer_same")][:6]
+      case["spec"] = dict(case["spec"], acts={})
+      return case
+    return st.one_of(base, base, base, base, base, base.map(at_capacity), base.map(deep_defer))
 
   def compare_common(self, o, exp_dispatched, seen, where):
     # an event deferred by the handler that was processing it is legitimately
